@@ -6,6 +6,9 @@ CONSTANTS
     Design = "temp"
     Policy = "trust"
     RenameAt = "written"
+    Memo = FALSE
+    MaxClear = 0
+    MaxExtra = 0
     MaxCrash = 1
     Fifo = TRUE
     EmitOn = FALSE
